@@ -146,3 +146,39 @@ def nontrivial(plan):
     n = len(plan["jobs"])
     edges = sum(len(j["deps"]) for j in plan["jobs"])
     return n >= 2 and (edges >= 1 or any(j["tokens"] for j in plan["jobs"]))
+
+
+def gen_history(rng, max_jobs=6, max_runs=6):
+    """C16: a sequence of runs of one experiment name, each submitting a subset of a job pool and ending
+    normally or by an exception raised in the block after a random number of submissions."""
+    n = rng.randint(2, max_jobs)
+    cls = [rng.choice(["TaskT", "TaskO"]) for _ in range(n)]
+    jobs = []
+    for j in range(n):
+        deps = []
+        if j > 0 and rng.random() < 0.4:
+            u = rng.randrange(j)
+            deps.append({"on": u, "how": rng.choice(["direct", "lst"]) if cls[u] == "TaskT" else rng.choice(["art", "arts"])})
+        codes = [0] if rng.random() < 0.85 else [3, 0]
+        jobs.append({"x": j, "cls": cls[j], "deps": deps, "tokens": [], "codes": codes})
+    runs = []
+    for r in range(rng.randint(2, max_runs)):
+        subset = set()
+        for j in range(n):
+            if rng.random() < 0.55:
+                subset.add(j)
+        # close under dependencies
+        changed = True
+        while changed:
+            changed = False
+            for j in list(subset):
+                for d in jobs[j]["deps"]:
+                    if d["on"] not in subset:
+                        subset.add(d["on"])
+                        changed = True
+        actions = [["submit", j] for j in sorted(subset)]
+        if rng.random() < 0.45:
+            runs.append({"actions": actions, "end": "exception", "abort_after": rng.randint(0, len(actions))})
+        else:
+            runs.append({"actions": actions, "end": "normal"})
+    return {"jobs": jobs, "tokens": [], "runs": runs, "check_orphans": True}
